@@ -19,11 +19,13 @@ VARIABLES
   granted,  \* set of <<voter, term, candidate>> : voter's votedFor was candidate in term at some time
   maxTerm,  \* node -> highest term it ever held (survives restarts)
   ackIdx,   \* node -> highest log index it acknowledged to a leader (success reply sent) or, as leader, committed
+  reapply,  \* node -> last journal index a restarted node has yet to re-apply (0 when none): until then its member
+            \* view is the constructor's list (membership is rebuilt lazily at apply time - part of known finding KF1)
   subm,     \* command id -> code version enabled at the submitting node when a versioned call was made (C17)
   preCrash, \* node -> [log, ack] it had when its process last died (Nil while it runs undisturbed since start-up)
   lastTick  \* the node whose tick produced this state, or Nil (set by the wrappers: CoreMC, CoreSim, CoreTrace)
 
-gvars == <<G, CG, elected, granted, maxTerm, ackIdx, subm, preCrash, lastTick>>
+gvars == <<G, CG, elected, granted, maxTerm, ackIdx, reapply, subm, preCrash, lastTick>>
 
 Live(n) == node[n].alive
 IsVoter(n) == n \notin Observers
@@ -45,7 +47,7 @@ ElectedOf(nd) == {<<nd[n].term, n>> : n \in {m \in Nodes : nd[m].alive /\ nd[m].
 GrantedOf(nd) == {<<n, nd[n].term, nd[n].votedFor>> : n \in {m \in Nodes : nd[m].alive /\ nd[m].votedFor # Nil}}
 
 GInit == /\ lastTick = Nil /\ maxTerm = [n \in Nodes |-> 0] /\ ackIdx = [n \in Nodes |-> 0]
-         /\ preCrash = [n \in Nodes |-> [has |-> FALSE]] /\ subm = <<>> /\ G = GOf(node) /\ CG = {<<1, 0, NoopCmd, 0>>} /\ elected = ElectedOf(node) /\ granted = GrantedOf(node)
+         /\ preCrash = [n \in Nodes |-> [has |-> FALSE]] /\ subm = <<>> /\ reapply = [n \in Nodes |-> 0] /\ G = GOf(node) /\ CG = {<<1, 0, NoopCmd, 0>>} /\ elected = ElectedOf(node) /\ granted = GrantedOf(node)
 (* extra: states a process went through INSIDE the step and that are no longer visible afterwards (the state *)
 (* of a process at the moment it was killed in the middle of a step); records with hist, log, commit, term     *)
 GNextWith(extra) ==
@@ -59,6 +61,10 @@ GNextWith(extra) ==
          /\ ackIdx' = [n \in Nodes |->
                IF ~node'[n].alive THEN ackIdx[n]
                ELSE MaxOf({ackIdx[n]} \cup AckOf(n))]
+         /\ reapply' = [n \in Nodes |->
+               IF ~node'[n].alive THEN 0
+               ELSE IF ~node[n].alive /\ Journal THEN Last(node'[n].log).idx          \* just restarted from its journal
+               ELSE IF node'[n].applied >= reapply[n] THEN 0 ELSE reapply[n]]
          /\ subm' = LET new == {<<n, k>> \in Nodes \X (1..64) :
                                     /\ node'[n].alive /\ node[n].alive /\ k <= Len(node'[n].queue) /\ k > Len(node[n].queue)
                                     /\ node'[n].queue[k].cb.k = "cb" /\ node'[n].queue[k].cb.cid \in VersionedCids}
@@ -158,8 +164,16 @@ FoldView(view, n, es) ==
                  ELSE IF r.k = "rem" /\ r.v # n THEN view \ {r.v} ELSE view
        IN FoldView(v1, n, Tail(es))
 (* the member view of a node equals the configuration defined by the membership entries in its log *)
-ViewBad == IF Membership THEN {n \in Voters0 : Live(n) /\ node[n].log[1].idx = 1 /\
-                                  node[n].others # FoldView(Voters0 \ {n}, n, node[n].log)} ELSE {}
+ViewBadLog == IF ~Membership THEN {}
+              ELSE {n \in Voters0 : Live(n) /\ node[n].log[1].idx = 1 /\ node[n].others # FoldView(Voters0 \ {n}, n, node[n].log)}
+(* a node whose log starts at the snapshot it holds: the member set restored from the snapshot + the entries after it *)
+ViewBadSnap == IF ~Membership THEN {}
+               ELSE {n \in Nodes : Live(n) /\ ~node[n].needLoad /\ node[n].snap \in DOMAIN snaps /\ Len(node[n].log) >= 2
+                      /\ node[n].log[1] = snaps[node[n].snap].prev /\ node[n].log[2] = snaps[node[n].snap].last
+                      /\ node[n].others # FoldView(snaps[node[n].snap].cluster \ {n}, n, SubSeq(node[n].log, 3, Len(node[n].log)))}
+ViewBad == ViewBadLog \cup ViewBadSnap
+(* signature of known finding KF6: the snapshot was serialised while membership entries beyond its position were in the log *)
+AheadSig(n) == n \in ViewBadSnap /\ snaps[node[n].snap].ahead
 (* signature of known finding KF1 (known_findings.json): the log holds two membership entries of opposite *)
 (* kind about the same node; applying the earlier one again (apply-time re-application) undoes the later *)
 ReapplySig(n) ==
@@ -255,7 +269,8 @@ StateViolations ==
 \cup (IF LackingNodeStops THEN {} ELSE {"C17.LackingNodeStops"})
 \cup (IF SwitchValidation THEN {} ELSE {"C17.SwitchValidation"})
 \cup (IF OneChangeAtATime THEN {} ELSE {"C10.OneChangeAtATime"})
-\cup (IF ViewFromLog THEN {} ELSE IF \A n \in ViewBad : ReapplySig(n) THEN {"C10.ViewFromLog#KF1"} ELSE {"C10.ViewFromLog"})
+\cup (IF ViewFromLog THEN {} ELSE IF \A n \in ViewBad : ReapplySig(n) \/ reapply[n] > 0 THEN {"C10.ViewFromLog#KF1"}
+      ELSE IF \A n \in ViewBad : ReapplySig(n) \/ reapply[n] > 0 \/ AheadSig(n) THEN {"C10.ViewFromLog#KF6"} ELSE {"C10.ViewFromLog"})
 \cup (IF ObserverNeverVotesOrLeads THEN {} ELSE {"C18.ObserverNeverVotesOrLeads"})
 \cup (IF ObserversAreNotMembers THEN {} ELSE {"C18.ObserversAreNotMembers"})
 \cup (IF SnapshotAtPosition THEN {} ELSE {"C09.SnapshotAtPosition"})
@@ -349,9 +364,18 @@ ApplyProgress ==
 NoDumpSig == Journal /\ ~DumpFile /\ lastTick' # Nil /\ node'[lastTick'].alive
              /\ node'[lastTick'].applied + 1 < node'[lastTick'].log[1].idx
 
+(* signature of known finding KF7: a complete snapshot OLDER than the node's applied position is installed (the leader *)
+(* was sent back by a stale 'reset' reply of this follower): applied index and object state move backwards             *)
+InstallOlderSig(n) ==
+  /\ BothLive(n) /\ node'[n].snap # node[n].snap /\ node'[n].snap \in DOMAIN snaps'
+  /\ snaps'[node'[n].snap].last.idx < node[n].applied
+  /\ node'[n].applied = snaps'[node'[n].snap].last.idx
+MonoBad == {n \in Nodes : BothLive(n) /\ ~(node'[n].commit >= node[n].commit /\ node'[n].applied >= node[n].applied)}
+HistBad == {n \in Nodes : BothLive(n) /\ ~(Len(node[n].hist) <= Len(node'[n].hist) /\ SubSeq(node'[n].hist, 1, Len(node[n].hist)) = node[n].hist)}
+
 StepViolations ==
-     (IF MonotoneIndices THEN {} ELSE {"C04.MonotoneIndices"})
-\cup (IF HistAppendOnly THEN {} ELSE {"C01.HistAppendOnly"})
+     (IF MonotoneIndices THEN {} ELSE IF \A n \in MonoBad : InstallOlderSig(n) THEN {"C04.MonotoneIndices#KF7"} ELSE {"C04.MonotoneIndices"})
+\cup (IF HistAppendOnly THEN {} ELSE IF \A n \in HistBad : InstallOlderSig(n) THEN {"C01.HistAppendOnly#KF7"} ELSE {"C01.HistAppendOnly"})
 \cup (IF CommitIsQuorumBacked THEN {} ELSE {"C04.CommitIsQuorumBacked"})
 \cup (IF LeaderCompleteness THEN {} ELSE {"C03.LeaderCompleteness"})
 \cup (IF TermMonotone THEN {} ELSE {"C03.TermMonotone"})
